@@ -1472,6 +1472,9 @@ func rulePanic(sc panicScope) ruleFn {
 			} else if why2, ok2 := r.searchIndexProver(fn, path[0].(ast.Expr)); ok2 {
 				r.OK("R7.P1", name, construct, site, why2)
 				continue
+			} else if why2, ok2 := r.recordedIndexProver(fn, path[0].(ast.Expr)); ok2 {
+				r.OK("R7.P1", name, construct, site, why2)
+				continue
 			} else if reason, tabled := useTable(r, boundsTable, name+"/"+construct); tabled {
 				r.Tabled("R7.P1", name, construct, site, "bounds", reason)
 				continue
@@ -3363,6 +3366,148 @@ func nonEmptyBytesAt(v ssa.Value, b *ssa.BasicBlock) (string, bool) {
 		if sb := iff.Block().Succs[side]; len(sb.Preds) == 1 && (sb == b || sb.Dominates(b)) {
 			return "its length was tested", true
 		}
+	}
+	return "", false
+}
+
+// recordedIndexProver (P1): X[p] where X was made with len(L) slots and p is an element of a
+// list of ints into which the function only ever appends the index of a `range L` loop
+// (`results := make(T, len(inputs)); for i := range inputs { … idxs = append(idxs, i) }; …
+// results[idxs[n]]`): every recorded index is below len(L) = len(X).
+func (r *Run) recordedIndexProver(fn *ssa.Function, e ast.Expr) (string, bool) {
+	ie, ok := e.(*ast.IndexExpr)
+	if !ok {
+		return "", false
+	}
+	lenArg := func(v ssa.Value) ssa.Value {
+		c, ok := viaCell(unwrap(v)).(*ssa.Call)
+		if !ok {
+			return nil
+		}
+		if b, ok := c.Call.Value.(*ssa.Builtin); ok && b.Name() == "len" {
+			return viaCell(unwrap(c.Call.Args[0]))
+		}
+		return nil
+	}
+	for _, ins := range allInstrs(fn) {
+		ia, ok := ins.(*ssa.IndexAddr)
+		if !ok || ia.Pos() != ie.Lbrack {
+			continue
+		}
+		mk, ok := viaCell(unwrap(ia.X)).(*ssa.MakeSlice)
+		if !ok {
+			return "", false
+		}
+		L := lenArg(mk.Len)
+		if L == nil {
+			return "", false
+		}
+		if _, isParam := L.(*ssa.Parameter); !isParam {
+			return "", false // the list whose length was taken must not change: a parameter never reassigned
+		}
+		// the index: an element of a list of ints
+		ld, ok := viaCell(unwrap(ia.Index)).(*ssa.UnOp)
+		if !ok || ld.Op != token.MUL {
+			return "", false
+		}
+		src, ok := ld.X.(*ssa.IndexAddr)
+		if !ok {
+			return "", false
+		}
+		// every value the list can hold
+		seen := map[ssa.Value]bool{}
+		var elems []ssa.Value
+		okList := true
+		var walk func(v ssa.Value)
+		walk = func(v ssa.Value) {
+			v = unwrap(v)
+			if seen[v] || !okList {
+				return
+			}
+			seen[v] = true
+			switch x := v.(type) {
+			case *ssa.Const:
+				if !x.IsNil() {
+					okList = false
+				}
+			case *ssa.Phi:
+				for _, ed := range x.Edges {
+					walk(ed)
+				}
+			case *ssa.MakeSlice:
+				if k, ok := x.Len.(*ssa.Const); !ok || k.Value == nil || k.Value.ExactString() != "0" {
+					okList = false
+				}
+			case *ssa.Call:
+				b, ok := x.Call.Value.(*ssa.Builtin)
+				if !ok || b.Name() != "append" || len(x.Call.Args) != 2 {
+					okList = false
+					return
+				}
+				walk(x.Call.Args[0])
+				// the appended pack: a slice of a fresh array whose elements are stored one by one
+				sl, ok := x.Call.Args[1].(*ssa.Slice)
+				if !ok {
+					okList = false
+					return
+				}
+				arr, ok := sl.X.(*ssa.Alloc)
+				if !ok {
+					okList = false
+					return
+				}
+				for _, ref := range *arr.Referrers() {
+					if a2, ok := ref.(*ssa.IndexAddr); ok {
+						for _, r2 := range *a2.Referrers() {
+							if st, ok := r2.(*ssa.Store); ok {
+								elems = append(elems, st.Val)
+							}
+						}
+					}
+				}
+			case *ssa.UnOp:
+				// a local cell: whatever was stored into it
+				if al, ok := x.X.(*ssa.Alloc); ok && x.Op == token.MUL {
+					for _, st := range storesTo(al) {
+						walk(st.Val)
+					}
+				} else {
+					okList = false
+				}
+			default:
+				okList = false
+			}
+		}
+		walk(src.X)
+		if !okList || len(elems) == 0 {
+			return "", false
+		}
+		// each recorded value is the index of a loop bounded by len(L)
+		for _, el := range elems {
+			bounded := false
+			if el.Referrers() != nil {
+				for _, ref := range *el.Referrers() {
+					bo, ok := ref.(*ssa.BinOp)
+					if !ok || bo.Op != token.LSS || bo.X != el || lenArg(bo.Y) != L || bo.Referrers() == nil {
+						continue
+					}
+					for _, r2 := range *bo.Referrers() {
+						if iff, ok := r2.(*ssa.If); ok {
+							body := iff.Block().Succs[0]
+							for _, u := range *el.Referrers() {
+								if st, ok := u.(*ssa.Store); ok && st.Val == el && len(body.Preds) == 1 && (body == st.Block() || body.Dominates(st.Block())) {
+									bounded = true
+								}
+							}
+						}
+					}
+				}
+			}
+			if !bounded {
+				return "", false
+			}
+		}
+		return "the index is an element of a list that only ever receives the index of a loop over the list whose length the indexed slice was made with", true
 	}
 	return "", false
 }
